@@ -128,6 +128,15 @@ seeder_urandom(const br_prng_class **ctx)
 				}
 				break;
 			}
+			if (len == 0) {
+				/*
+				 * End of file: nothing more will come
+				 * (e.g. a regular file standing in for
+				 * the device); this is a failure, not a
+				 * reason to try again forever.
+				 */
+				break;
+			}
 			u += (size_t)len;
 		}
 		close(f);
